@@ -1,13 +1,16 @@
 """C17 - every example in the schema is sent, verbatim, in the examples phase.
 
 Stages: proofs (Properties_C17.v) -> correspondence of the Coq model (vm_compute) with
+  get_strategies_from_examples + generate_one, case by case, with OBJECT IDENTITIES (heap model, section 6 below)
   produce_combinations / _produce_parameter_combinations        (exact equality, dict order included)
   _expand_subschemas, extract_inner_examples, extract_from_schema (exact equality on generated schema fragments)
   get_parameters_strategy(exclude=...) + get_parameters_value    (fake strategy factory: the foreign generator is an argument)
   add_examples                                                   (stub operation raising each exception class / bad headers)
 -> oracle search: generated OpenAPI 3.0 / 2.0 documents with examples at every placement, run through the real engine
    (examples phase only) against the loopback API; every planted example must arrive unchanged in some request (or the
-   operation must report an error), required inputs must be present and valid, operations without examples are skipped.
+   operation must report an error), required inputs must be present and valid, operations without examples are skipped;
+   styled parameters (c17_styles.py): every style x explode x type, more body examples than parameter combinations, every request
+   decoded by an independent style decoder.
 """
 from __future__ import annotations
 
@@ -1451,10 +1454,255 @@ def stage_oracle(chk, n_docs):
 
 
 # ----------------------------------------------------------------------------------------
+# 6. case assembly with object identity (Model_C17 section 7) vs get_strategies_from_examples + generate_one
+# ----------------------------------------------------------------------------------------
+def cdict(d) -> str:
+    return clist([ctuple(cstr(str(k)), cjson(v)) for k, v in d.items()], "(str * json)")
+
+
+def first_occurrence_labels(xs):
+    seen = {}
+    return [seen.setdefault(x, len(seen)) for x in xs]
+
+
+def impl_assembly(raw, path, method):
+    """The real sequence add_examples runs: every strategy of get_strategies_from_examples through generate_one, in order;
+    observed AFTER all cases were built (that is when the requests are sent).  Records the example list and the combinations
+    produce_combinations yields (with the identity of every container dict), every draw of a fill-in strategy, and for every
+    case the contents and the identity of each container."""
+    import schemathesis
+    from schemathesis.generation.hypothesis import examples as ge
+    from schemathesis.specs.openapi import _hypothesis as hy
+    from schemathesis.specs.openapi import examples as ex
+    from schemathesis.specs.openapi.constants import LOCATION_TO_CONTAINER
+    from schemathesis.specs.openapi.serialization import get_serializers_for_operation
+
+    op = schemathesis.openapi.from_dict(raw)[path][method]
+    rec = {"examples": None, "combos": [], "combo_copies": [], "draws": []}
+    orig_pc, orig_gps = ex.produce_combinations, hy.get_parameters_strategy
+
+    def pc(examples):
+        rec["examples"] = list(examples)
+        for combo in orig_pc(examples):
+            rec["combos"].append(combo)
+            rec["combo_copies"].append(copy.deepcopy(combo))
+            yield combo
+
+    def gps(operation, strategy_factory, location, generation_config, exclude=()):
+        excl = sorted(exclude)
+        strategy = orig_gps(operation, strategy_factory, location, generation_config, exclude=exclude)
+
+        def note(d):
+            rec["draws"].append((location, excl, copy.deepcopy(d)))
+            return d
+
+        return strategy.map(note)
+
+    ex.produce_combinations, hy.get_parameters_strategy = pc, gps
+    try:
+        strategies = op.get_strategies_from_examples()
+        cases, per_case_draws = [], []
+        for strategy in strategies:
+            rec["draws"] = []
+            cases.append(ge.generate_one(strategy))
+            per_case_draws.append(rec["draws"][-4:])  # path, header, cookie, query of the draw that produced the case
+    finally:
+        ex.produce_combinations, hy.get_parameters_strategy = orig_pc, orig_gps
+    serializers = get_serializers_for_operation(op)
+    return {"op": op, "examples": rec["examples"], "combos": rec["combos"], "combo_copies": rec["combo_copies"], "cases": cases,
+            "draws": per_case_draws, "serializers": serializers, "loc2cont": dict(LOCATION_TO_CONTAINER)}
+
+
+def stage_assembly(chk, n):
+    from harness.props import c17_styles as S
+    from schemathesis.specs.openapi.examples import ParameterExample
+
+    rng = chk.rng
+    jobs, exprs = [], []
+    tok = S.Tokens(rng)
+    for i in range(n):
+        # 70%: every parameter has an example (nothing to fill in); mostly more body examples than parameter combinations
+        path, method, opdef, info = S.gen_styled_op(rng, tok, i, all_examples=rng.random() < 0.7,
+                                                    shape=rng.choice(["more_bodies", "more_bodies", "more_params", "no_body", "equal"]))
+        raw = {"openapi": "3.0.2", "info": {"title": "asm", "version": "1"}, "paths": {path: {method: opdef}}}
+        try:
+            obs = impl_assembly(raw, path, method.upper())
+        except Exception as exc:  # noqa: BLE001
+            chk.disagree("case assembly: the real sequence raised", {"raw": raw}, f"{type(exc).__name__}: {exc}", None)
+            continue
+        if not obs["examples"]:
+            continue
+        cont_of = obs["loc2cont"]
+        exs = [["P", e.container, e.name, e.value] if isinstance(e, ParameterExample) else ["B", e.value, e.media_type] for e in obs["examples"]]
+        # identities of the source containers, combination by combination
+        src_ids, src_names = [], []
+        for combo in obs["combos"]:
+            for k, v in combo.items():
+                if k not in ("media_type", "body"):
+                    src_ids.append(id(v))
+                    src_names.append(k)
+        # draws: (case index, container) -> what the fill-in strategy returned
+        draw_tbl, ser_tbl, ser_seen = [], [], set()
+
+        def add_ser(cname, d):
+            key = (cname, strict_key(d))
+            if key in ser_seen:
+                return
+            ser_seen.add(key)
+            out = copy.deepcopy(d)
+            fn = obs["serializers"].get(cname)
+            if fn is not None:
+                out = fn(out)
+            ser_tbl.append((cname, copy.deepcopy(d), out))
+
+        exclude_ok = True
+        for idx, (combo, draws) in enumerate(zip(obs["combo_copies"], obs["draws"])):
+            by_loc = {loc: (excl, d) for loc, excl, d in draws}
+            for k, v in combo.items():
+                if k in ("media_type", "body"):
+                    continue
+                loc = [l for l, c in cont_of.items() if c == k][0]
+                excl, drawn = by_loc.get(loc, ([], None))
+                if excl != sorted(v):
+                    exclude_ok = False
+                draw_tbl.append((idx, k, drawn))
+                add_ser(k, v)
+                if drawn is not None:
+                    add_ser(k, {**v, **drawn} if v else drawn)
+        # what the cases hold now
+        impl_wires, case_ids = [], []
+        for combo, case in zip(obs["combo_copies"], obs["cases"]):
+            w = []
+            for k in combo:
+                if k in ("media_type", "body"):
+                    continue
+                val = getattr(case, k)
+                w.append([k, None if val is None else canon(dict(val))])  # headers: CaseInsensitiveDict
+                if val is not None:
+                    case_ids.append(id(val))
+            impl_wires.append(w)
+        impl = {
+            "source_sharing": [src_names, first_occurrence_labels(src_ids)],
+            "wires": impl_wires,
+            "case_objects": first_occurrence_labels(case_ids),
+            "case_object_is_a_source_object": any(x in set(src_ids) for x in case_ids),
+            "source_unchanged": all(strict_key(a) == strict_key(b) for a, b in zip(obs["combos"], obs["combo_copies"])),
+            "exclude_is_value_keys": exclude_ok,
+        }
+        l = clist([c_example(e) for e in exs], "example")
+        dt = clist([ctuple(ctuple(cnat(i_), cstr(k)), copt(None if d is None else cdict(d), "(list (str * json))")) for i_, k, d in draw_tbl], "(nat * str * option dict)")
+        stbl = clist([ctuple(ctuple(cstr(k), cdict(a)), cdict(b)) for k, a, b in ser_tbl], "(str * dict * dict)")
+        exprs.append(f"assembly_report CopyWhenDrawn (draw_table {dt}) (ser_table {stbl}) {l}")
+        jobs.append((raw, info, exs, impl))
+    model = coq_eval(exprs) if exprs else []
+    agree = shared_src = 0
+    for (raw, info, exs, impl), m in zip(jobs, model):
+        m_refs, m_wires, m_cases, m_src_ok = m
+        names = [pstr(c) for rc in m_refs for c, _ in rc]
+        addrs = [a for rc in m_refs for _, a in rc]
+        m_case_addrs = [popt_addr(o) for cr in m_cases for _, o in cr]
+        m_case_addrs = [a for a in m_case_addrs if a is not None]
+        mod = {
+            "source_sharing": [names, first_occurrence_labels(addrs)],
+            "wires": [[[pstr(c), None if o is None else ["obj", [[pstr(k), mjson(v)] for k, v in o[1]]]] for c, o in w] for w in m_wires],
+            "case_objects": first_occurrence_labels(m_case_addrs),
+            "case_object_is_a_source_object": any(a in set(addrs) for a in m_case_addrs),
+            "source_unchanged": m_src_ok,
+            "exclude_is_value_keys": True,
+        }
+        shared = len(set(addrs)) < len(addrs)
+        shared_src += shared
+        nonidem = any(not p["idempotent"] and p["examples"] for p in info["params"])
+        chk.seen({"assembly": raw}, shared and nonidem)
+        chk.count("assembly:" + ("shared-source-container" if shared else "no-sharing") + (":non-idempotent-style" if nonidem else ""))
+        if impl != mod:
+            diff = {k: [impl[k], mod[k]] for k in impl if impl[k] != mod[k]}
+            chk.disagree("case assembly (get_strategies_from_examples + generate_one, object identities) vs Model_C17.assemble",
+                         {"raw": raw, "examples": exs}, {k: v[0] for k, v in diff.items()}, {k: v[1] for k, v in diff.items()})
+        else:
+            agree += 1
+    chk.stages["correspondence_case_assembly"] = {"operations": len(jobs), "agree": agree, "with_a_container_object_shared_between_combinations": shared_src}
+
+
+def popt_addr(o):
+    if o is None:
+        return None
+    if isinstance(o, tuple) and o[0] == "Some":
+        return o[1]
+    return o
+
+
+# ----------------------------------------------------------------------------------------
+# 7. oracle: styled parameters, several requests per operation, decoded by an independent decoder
+# ----------------------------------------------------------------------------------------
+def single_op_document(raw, op):
+    return {**raw, "paths": {op["path"]: raw["paths"][op["path"]]}}
+
+
+def stage_oracle_styles(chk, n_docs):
+    from harness.props import c17_styles as S
+
+    rng = chk.rng
+    corpus = [json.loads(p.read_text()) for p in sorted((core.VERIF / "corpus" / "C17").glob("styled_*.json"))]
+    docs = [(c["raw"], c["ops"]) for c in corpus]
+    for i in range(n_docs):
+        # every other document: only operations with MORE body examples than parameter combinations
+        docs.append(S.gen_styled_document(rng, rng.choice([4, 5, 6]), shape="more_bodies" if i % 2 == 0 else None))
+    # broken tie: ten times the documents, but at most 60 s in this stage (the corpus document and the first generated ones reach
+    # the input class; the document oracle of section 5 still has its own x10 budget afterwards)
+    deadline = min(chk.t0 + 200, time.time() + 60) if chk.broken else None
+    n_done = n_ops = n_fail = n_cycled = 0
+    start_failures = len(chk.failures)
+    for raw, ops in docs:
+        if deadline is not None and (time.time() > deadline or len(chk.failures) - start_failures >= 8):
+            chk.notes.append(f"styled search stopped after {n_done} of {len(docs)} documents (time cap / enough failing inputs)")
+            break
+        n_done += 1
+        try:
+            fails = S.check_styled_document(chk, raw, ops)
+        except Exception as exc:  # noqa: BLE001
+            chk.disagree("styled oracle run crashed", {"raw": raw}, f"{type(exc).__name__}: {exc}", None)
+            continue
+        n_ops += len(ops)
+        for op in ops:
+            combos = max([len(p["examples"]) for p in op["params"]] + [0])
+            cycled = combos >= 1 and len(op["bodies"]) > combos
+            n_cycled += cycled
+            chk.seen({"styled": raw["paths"][op["path"]]}, cycled and any(not p["idempotent"] and p["examples"] for p in op["params"]))
+        reported = set()
+        for what, detail, region in fails:
+            n_fail += 1
+            op = next((o for o in ops if f"{o['method']} {o['path']}" == detail.get("op")), None)
+            inp = {"detail": detail, "raw": raw, "ops": ops, "kind": "styled"}
+            if op is not None and region is None:
+                if (op["path"], what) in reported:
+                    continue
+                reported.add((op["path"], what))
+                small = single_op_document(raw, op)  # shrink to the one operation if it still fails there
+                try:
+                    again = [f for f in S.check_styled_document(chk, small, [op], record=False) if f[0] == what and f[2] is None]
+                except Exception:  # noqa: BLE001
+                    again = []
+                if again:
+                    inp = {"detail": again[0][1], "raw": small, "ops": [op], "kind": "styled"}
+            chk.fail(what, inp, detail, region=region)
+    chk.stages["oracle_engine_styles"] = {
+        "documents": n_done, "corpus": len(corpus), "operations": n_ops,
+        "operations_with_more_body_examples_than_parameter_combinations": n_cycled,
+        "failures_incl_known_regions": n_fail,
+    }
+
+
+# ----------------------------------------------------------------------------------------
 # known findings: canonical witnesses replayed on the implementation
 # ----------------------------------------------------------------------------------------
 def witness_fails(w) -> bool:
     chk = core.Check("C17", "quick", 0)
+    if w.get("kind") == "styled":
+        from harness.props import c17_styles as S
+
+        fails = S.check_styled_document(chk, w["raw"], w["ops"], record=False)
+        return any(f[2] == w["region"] or f[2] is None for f in fails)
     fails = check_document(chk, w["raw"], w["ops"], record=False)
     return any(f[2] == w["region"] or f[2] is None for f in fails)
 
@@ -1467,6 +1715,10 @@ def run(chk: core.Check):
         "extract_inner_examples, extract_from_schema, get_parameters_strategy(exclude)/get_parameters_value, add_examples and the mark table of run_test",
         "correspondence harness harness/props/c17.py (encoders, Coq output parser, canonical JSON, generators, stubs for Hypothesis strategies)",
         "oracle: harness/loopback.py recording server, harness/engine_util.py, urllib.parse / json as the reference decoders",
+        "case assembly (Model_C17 section 7): the heap model of dict objects (address = identity, deepclone = allocation, the style "
+        "conversions write into the dict they are given); the style serializer and the fill-in draw are function arguments, instantiated in the "
+        "correspondence by finite tables filled from the real serializer / the recorded draws; id() of the container dicts as the observed identity",
+        "harness/props/c17_styles.py: generator of styled operations and the independent RFC 6570 / OpenAPI 3.0 style decoder",
     ]
     chk.assumptions = [
         "hypothesis-jsonschema returns objects valid for the location schema (keys among the remaining properties, every required name present); "
@@ -1475,6 +1727,10 @@ def run(chk: core.Check):
         "container names are those of LOCATION_TO_CONTAINER minus body (checked on every run)",
         "an invalid-header / Unsatisfiable / SerializationNotPossible / SchemaError outcome counts as 'reported as an error for that operation' even for "
         "sibling examples of the same operation that could have been sent on their own",
+        "case assembly theorems: a location that has an explicit container declares parameters and the mode is positive, so its fill-in strategy is not "
+        "st.none() (all_drawn; add_examples passes no generation_mode); Hypothesis draws each example strategy to completion once (generate_one)",
+        "'sent unchanged' for a styled parameter = a server decoding the request per the declared style (RFC 6570 / OpenAPI 3.0 table) obtains the example; "
+        "only style/explode/type combinations where serialization.py follows that table are generated (the deviating ones are C06 findings)",
     ]
     chk.rule = (
         "example lists: 0-13 examples over 1-4 containers x 1-9 names x 1-4 media types with JSON values (no floats), shapes params-only / bodies-only / mixed; "
@@ -1484,7 +1740,11 @@ def run(chk: core.Check):
         "media type example/examples, properties (nested, composed), x-example(s); required parameters / bodies without examples; every third document may contain the listed finding shapes; "
         "25-35% of the slots (parameter / media type / property) and 45% of the example lists carry values that are == in Python but different JSON values (0/false, 1/true, also nested in objects and arrays), "
         "compared type-strictly (json.dumps sort_keys / textual form on the wire); "
-        "non-trivial = >=2 parameters or parameters+bodies (lists), >=1 value extracted (fragments), >=3 planted examples (documents)"
+        "non-trivial = >=2 parameters or parameters+bodies (lists), >=1 value extracted (fragments), >=3 planted examples (documents); "
+        "styled operations (case assembly correspondence and styled oracle): 1-7 parameters over path/query/header/cookie with each style x explode x type "
+        "combination that follows the OpenAPI 3.0 table (simple, label, matrix, form, spaceDelimited, pipeDelimited, deepObject, content application/json; primitive / array / object), "
+        "1-3 examples per parameter, 70% of the operations with an example for EVERY parameter, shapes: more body examples than parameter combinations (half of the documents entirely), "
+        "more parameter combinations than bodies, equal, no body; non-trivial = a parameter combination is cycled over several bodies and a non-idempotent style carries an example"
     )
     chk.proofs(["Common", "C17"])
     mult = 1 if quick else 8
@@ -1493,6 +1753,8 @@ def run(chk: core.Check):
     stage_lookup(chk, 80 * mult)
     stage_merge(chk, 120 * mult)
     stage_add_examples(chk, 40 * mult)
+    stage_assembly(chk, 40 * mult)
+    stage_oracle_styles(chk, (8 if quick else 100) * (10 if chk.broken else 1))
     n_docs = (32 if quick else 400) * (10 if chk.broken else 1)
     stage_oracle(chk, n_docs)
     for f in chk.findings:
@@ -1504,7 +1766,12 @@ def replay(payload) -> int:
         inp = f.get("input") or {}
         if "raw" in inp:
             chk = core.Check("C17", "quick", 0)
-            fails = check_document(chk, inp["raw"], inp["ops"], record=False)
+            if inp.get("kind") == "styled":
+                from harness.props import c17_styles as S
+
+                fails = S.check_styled_document(chk, inp["raw"], inp["ops"], record=False)
+            else:
+                fails = check_document(chk, inp["raw"], inp["ops"], record=False)
             print(f.get("what"), "->", "FAILS" if fails else "passes")
             for x in fails[:5]:
                 print("   ", x[0], json.dumps(x[1], default=str)[:300], "region=", x[2])
